@@ -1,4 +1,5 @@
 import Rbacx.Model.Compiler
+import Rbacx.Model.PyCli
 /-
   Rbacx.Model.Tools — `_detect_format` of store/policy_loader.py and the exit-code logic of cli.py.
 -/
@@ -48,5 +49,179 @@ def cliStatus (cmd : CliCmd) (strict : Bool) (validatorAvailable : Bool) (verdic
     if !validatorAvailable then EXIT_ENV
     else if !(verdicts.all id) then EXIT_SCHEMA_ERRORS
     else if strict && lintIssues != 0 then EXIT_LINT_ERRORS else EXIT_OK
+
+/-! ### parser dispatch: `_parse_yaml`, `parse_policy_text`, `parse_policy_bytes` of store/policy_loader.py
+
+  The parsers themselves are ORACLES: `jsonLoads text` / `yamlSafeLoad text` = the outcome of `json.loads(text)` / `yaml.safe_load(text)`
+  (a value, or the exception that escapes), `importYaml` = the outcome of `import yaml`. -/
+
+structure Parsers where
+  jsonLoads : PyVal → PyX.Res
+  importYaml : PyX.Res
+  yamlSafeLoad : PyVal → PyX.Res
+
+/-- `_parse_yaml(text)`: a failed import is an ImportError (only what `except Exception` catches is converted); an empty document
+    (`None`) is `{}`; anything but a mapping is a ValueError -/
+def parseYaml (P : Parsers) (text : PyVal) : PyX.Res :=
+  match P.importYaml with
+  | .error e => if PyX.isSubclass e.cls "Exception" then .error { cls := "ImportError" } else .error e
+  | .ok _ =>
+    match P.yamlSafeLoad text with
+    | .error e => .error e
+    | .ok PyVal.none => .ok (.dict [])
+    | .ok (.dict kvs) => .ok (.dict kvs)
+    | .ok _ => .error { cls := "ValueError" }
+
+/-- `parse_policy_text(text, filename=…, content_type=…, fmt=…)`: `detectFormat`, then the chosen oracle parser -/
+def parsePolicyText (P : Parsers) (text : PyVal) (fmt contentType filename : Option String) : PyX.Res :=
+  match detectFormat fmt contentType filename with
+  | .json => P.jsonLoads text
+  | .yaml => parseYaml P text
+
+/-- `parse_policy_bytes(data, …, encoding=…)`: decode (an oracle), then `parse_policy_text` with the same hints -/
+def parsePolicyBytes (P : Parsers) (decode : PyVal → PyVal → PyX.Res) (data encoding : PyVal) (fmt contentType filename : Option String) :
+    PyX.Res :=
+  match decode data encoding with
+  | .error e => .error e
+  | .ok text => parsePolicyText P text fmt contentType filename
+
+/-! ### the command functions `cmd_lint`, `cmd_validate`, `cmd_check` of cli.py, outcome by outcome
+
+  `cliStatus` above is the status function in terms of the VERDICTS; `cliRun` is the whole command function in terms of the outcomes of
+  its collaborators — reading the input, parsing it, the validator on each validated value, the linter — including the exceptions
+  that escape (cli.py defines EXIT_IO and EXIT_USAGE but no command function returns them: an unreadable file or unparsable text
+  is an exception that escapes `cmd_*` and `main`). -/
+
+def EXIT_USAGE : Nat := 2
+def EXIT_IO : Nat := 4
+
+structure CliWorld where
+  openRead : PyVal → PyX.Res
+  stdinRead : PyX.Res
+  parsers : Parsers
+  parseRequireAttrs : PyVal → PyX.Res
+  validate : PyVal → PyX.Res
+  lintPolicy : PyVal → PyVal → PyX.Res
+  lintSet : PyVal → PyVal → PyX.Res
+
+/-- `_load_policy_from_arg(path)`: the file unless `--policy` is absent, empty or `-` (then STDIN); the file name is the only format
+    hint (STDIN: none, hence JSON) -/
+def cliLoad (w : CliWorld) (path : Option String) : PyX.Res :=
+  match path with
+  | some p =>
+    if p != "" && p != "-" then
+      (match w.openRead (.str p) with
+       | .error e => .error e
+       | .ok text => parsePolicyText w.parsers text Option.none Option.none (some p))
+    else
+      (match w.stdinRead with
+       | .error e => .error e
+       | .ok text => parsePolicyText w.parsers text Option.none Option.none Option.none)
+  | Option.none =>
+    (match w.stdinRead with
+     | .error e => .error e
+     | .ok text => parsePolicyText w.parsers text Option.none Option.none Option.none)
+
+/-- the values `_validate_doc` hands to the validator: the document, or with `--policyset` what iterating `doc.get("policies") or []`
+    yields (AttributeError for a document that is not a mapping, TypeError for `policies` that cannot be iterated) -/
+def cliValidated (policyset : Bool) (doc : PyVal) : Except PyX.Exc (List PyVal) :=
+  if policyset then
+    (match PyX.getE doc "policies" with
+     | .error e => .error e
+     | .ok ps => PyX.iterE (PyVal.por ps (.list [])))
+  else .ok [doc]
+
+/-- an exception of the validator that `_validate_doc` does NOT turn into a schema error: a RuntimeError (re-raised) or something
+    `except Exception` does not catch -/
+def escapesValidation (e : PyX.Exc) : Bool := PyX.isSubclass e.cls "RuntimeError" || !PyX.isSubclass e.cls "Exception"
+
+/-- the verdict per validated value, in order, up to the first exception that escapes -/
+def cliVerdicts (validate : PyVal → PyX.Res) : List PyVal → Except PyX.Exc (List Bool)
+  | [] => .ok []
+  | d :: ds =>
+    match validate d with
+    | .ok _ => (match cliVerdicts validate ds with | .ok vs => .ok (true :: vs) | .error e => .error e)
+    | .error e =>
+      if escapesValidation e then .error e
+      else (match cliVerdicts validate ds with | .ok vs => .ok (false :: vs) | .error e' => .error e')
+
+def cliValidatePhase (validate : PyVal → PyX.Res) (policyset : Bool) (doc : PyVal) : Except PyX.Exc (List Bool) :=
+  match cliValidated policyset doc with
+  | .error e => .error e
+  | .ok ds => cliVerdicts validate ds
+
+/-- reading, parsing and validating, as `cmd_validate` has them inside one `try` -/
+def cliLoadValidate (w : CliWorld) (policyset : Bool) (path : Option String) : Except PyX.Exc (List Bool) :=
+  match cliLoad w path with
+  | .error e => .error e
+  | .ok doc => cliValidatePhase w.validate policyset doc
+
+/-- the lint phase: the linter for the mode, `list(issues)`, `--strict` -/
+def cliLintPhase (w : CliWorld) (strict policyset : Bool) (doc require : PyVal) : Except PyX.Exc Nat :=
+  match (if policyset then w.lintSet doc require else w.lintPolicy doc require) with
+  | .error e => .error e
+  | .ok issues =>
+    match PyX.iterE issues with
+    | .error e => .error e
+    | .ok l => .ok (if strict && !l.isEmpty then EXIT_LINT_ERRORS else EXIT_OK)
+
+/-- what a command function does: `.ok status` = it returns the status, `.error e` = the exception escapes it.
+    `path` / `requireArg` = the `policy` / `require_attrs` attributes of the Namespace, `strict` / `policyset` the truthiness of those -/
+def cliRun (cmd : CliCmd) (w : CliWorld) (strict policyset : Bool) (path : Option String) (requireArg : PyVal) : Except PyX.Exc Nat :=
+  match cmd with
+  | .lint =>
+    (match w.parseRequireAttrs requireArg with
+     | .error e => .error e
+     | .ok req =>
+       match cliLoad w path with
+       | .error e => .error e
+       | .ok doc => cliLintPhase w strict policyset doc req)
+  | .validate =>
+    -- reading, parsing and validating are all inside the `try`: a RuntimeError of any of them is the ENV status
+    (match cliLoadValidate w policyset path with
+     | .error e => if PyX.isSubclass e.cls "RuntimeError" then .ok EXIT_ENV else .error e
+     | .ok vs => .ok (if vs.all id then EXIT_OK else EXIT_SCHEMA_ERRORS))
+  | .check =>
+    (match w.parseRequireAttrs requireArg with
+     | .error e => .error e
+     | .ok req =>
+       -- reading and parsing are OUTSIDE the `try` here: a RuntimeError while loading escapes
+       match cliLoad w path with
+       | .error e => .error e
+       | .ok doc =>
+         match cliValidatePhase w.validate policyset doc with
+         | .error e => if PyX.isSubclass e.cls "RuntimeError" then .ok EXIT_ENV else .error e
+         | .ok vs =>
+           if vs.all id then cliLintPhase w strict policyset doc req else .ok EXIT_SCHEMA_ERRORS)
+
+/-- a boolean flag of the Namespace: `bool(getattr(args, name, False))` -/
+def cliFlag (args : PyVal) (name : String) : Bool := (PyX.getattrD args name (.bool false)).truthy
+
+/-- the model's outcome as the Python value / exception the command function produces -/
+def encExit : Except PyX.Exc Nat → PyX.Res
+  | .ok n => .ok (.int n)
+  | .error e => .error e
+
+/-- `main(argv)`: building the parser, `parser.parse_args(argv)` (argparse ends `--version` / `--help` / usage errors with SystemExit:
+    only the exit with code 0 of an `argv` that names `-v` / `--version` is turned into EXIT_OK, every other one escapes), no
+    subcommand = EXIT_USAGE, otherwise the command function's outcome: an exception escapes, a status is returned as `int(status)`,
+    and a status `int` rejects with an `Exception` is EXIT_OK -/
+def cliMain (buildParser : PyX.Res) (parseArgs callFunc : PyVal → PyX.Res) (argv : PyVal) : PyX.Res :=
+  match buildParser with
+  | .error e => .error e
+  | .ok _ =>
+    match parseArgs argv with
+    | .error e =>
+      if PyX.isSubclass e.cls "SystemExit" && (pyEq e.code (.int 0) && (argv.truthy &&
+          ((Py.iter argv).any fun a => pyEq (.str "-v") a || pyEq (.str "--version") a))) then .ok (.int EXIT_OK) else .error e
+    | .ok args =>
+      if !PyX.hasattr args "func" then .ok (.int EXIT_USAGE)
+      else
+        match callFunc args with
+        | .error e => .error e
+        | .ok rc =>
+          match PyX.intE rc with
+          | .ok code => .ok code
+          | .error e => if PyX.isSubclass e.cls "Exception" then .ok (.int EXIT_OK) else .error e
 
 end Rbacx
